@@ -110,9 +110,9 @@ func init() {
 		ID:    "C03",
 		Title: "A partition consumer delivers the log exactly once, in order, unaltered",
 		Explain: "Decides structural necessary conditions on every path of consumer.go: a ConsumerMessage is only built for offsets ≥ child.offset and child.offset is then advanced to exactly that offset+1 (C03.advance); every field of the delivered message comes from the corresponding field of the parsed record/message, and the fetch request asks for (topic, partition, child.offset, fetchSize) of the same child (C03.fields/request); " +
-			"the fetch/parse hand-shake: one acks.Done per response per subscription, Add→feed→Wait→handleResponses order (C03.acks); every subscription result class is redispatched exactly once and dropped from the broker worker, a timed-out feeder resubscribes itself (C03.redispatch); tabled senders on messages and writers of child.offset (C03.who). " +
-			"NOT covered: base-offset arithmetic of v1 wrappers, partial-trailing handling and fetch-size doubling (numeric), progress under faults, decompression.",
-		Rules: []func(*Ctx){c03Advance, c03ResponseSkip, c03Fields, c03Request, c03Acks, c03Redispatch, c03Who},
+			"the fetch/parse hand-shake: one acks.Done per response per subscription, Add→feed→Wait→handleResponses order (C03.acks); every subscription result class is redispatched exactly once and dropped from the broker worker, a timed-out feeder resubscribes itself (C03.redispatch); tabled senders on messages and writers of child.offset (C03.who); a response holding only a truncated record always changes something before the next fetch — the fetch size doubles, or at the configured maximum ErrMessageTooLarge is reported and the record stepped over; the size is reset only after records arrived (C03.partial-progress). " +
+			"NOT covered: base-offset arithmetic of v1 wrappers, the int32 overflow clamp of the doubled fetch size, progress under faults in general, decompression.",
+		Rules: []func(*Ctx){c03Advance, c03ResponseSkip, c03PartialProgress, c03Fields, c03Request, c03Acks, c03Redispatch, c03Who},
 	})
 }
 
@@ -178,6 +178,49 @@ func c03ResponseSkip(c *Ctx) {
 		g, path := reg.Guarded(s, Cmp{token.EQL, nrecs, ConstInt(0)})
 		c.Check(g, rule, fn, "response-level-skip-only-when-empty", s.Instr(), "parseResponse moves child.offset itself only when the block holds no complete record (oversized-message skip)",
 			"parseResponse advances child.offset although the response carried records (whose own parsing already advanced it): the next visible record is skipped", path)
+	}
+}
+
+// c03PartialProgress: a response that carries only a truncated record must change something before the
+// same fetch is repeated — a larger fetch size, or (at the configured maximum) an error and a skip.
+func c03PartialProgress(c *Ctx) {
+	p := c.P
+	rule := "C03.partial-progress"
+	c.Doc(rule, "parseResponse, on every path after block.isPartial() is true: either child.fetchSize is stored with fetchSize*2 (growth), or ErrMessageTooLarge is reported and child.offset advanced — the latter only under fetchSize == Consumer.Fetch.Max with Max > 0; and the fetch size is reset to Consumer.Fetch.Default only when the block held records")
+	c.Floor(rule, 3)
+	fn := c.NeedFn(rule, "partitionConsumer.parseResponse")
+	if fn == nil {
+		return
+	}
+	reg := WholeFn(fn)
+	partial := p.ResultOf(0, "FetchResponseBlock.isPartial")
+	fsz := FieldLoad("partitionConsumer.fetchSize")
+	grow := StoreTo(OrV(BinOpOf(token.MUL, fsz, ConstInt(2)), BinOpOf(token.SHL, fsz, ConstInt(1))), "partitionConsumer.fetchSize")
+	tooLarge := p.CallWith("partitionConsumer.sendError", 1, p.ErrVal("ErrMessageTooLarge"))
+	edges := reg.EstablishingEdges(Truth{partial, true})
+	if len(edges) == 0 {
+		c.Unresolved(rule, "branch on block.isPartial() in parseResponse")
+		return
+	}
+	for _, e := range edges {
+		esc, path := reg.From(Pt{e.To, 0}).Escape(func(it Item) bool { return grow(it) || tooLarge(it) })
+		c.Check(!esc, rule, fn, "partial-grows-or-reports", lastInstr(e.From), "a truncated record leads to a larger fetch size or to ErrMessageTooLarge",
+			"a response holding only a truncated record can leave fetch size and offset unchanged: the consumer re-fetches the same bytes forever and never delivers the record", path)
+	}
+	fmax := FieldLoad("Config.Consumer.Fetch.Max")
+	for _, s := range Info(fn).Find(tooLarge) {
+		g1, path := reg.Guarded(s, Cmp{token.EQL, fsz, fmax})
+		g2, _ := reg.Guarded(s, Cmp{token.GTR, fmax, ConstInt(0)})
+		c.Check(g1 && g2, rule, fn, "give-up-only-at-max", s.Instr(), "ErrMessageTooLarge (and the skip) only when the fetch size has reached a configured maximum",
+			"a record larger than the current fetch size is skipped with ErrMessageTooLarge although the fetch size could still grow: a deliverable record is lost", path)
+		// the skip accompanies the report
+		esc, pth := reg.From(s.After()).Escape(StoreTo(nil, "partitionConsumer.offset"))
+		c.Check(!esc, rule, fn, "give-up-skips", s.Instr(), "the oversized record is stepped over after the error", "ErrMessageTooLarge is reported but the offset is not advanced: the same oversized record is fetched and reported forever", pth)
+	}
+	nrecs := p.ResultOf(0, "FetchResponseBlock.numRecords")
+	for _, s := range Info(fn).Find(StoreTo(FieldLoad("Config.Consumer.Fetch.Default"), "partitionConsumer.fetchSize")) {
+		g, path := reg.Guarded(s, Cmp{token.NEQ, nrecs, ConstInt(0)})
+		c.Check(g, rule, fn, "reset-only-with-records", s.Instr(), "the fetch size returns to the default only after a response with records", "the grown fetch size is reset although no record was received: the growth never takes effect", path)
 	}
 }
 
